@@ -25,7 +25,7 @@ CHECKS = {
    ref="DESIGN.md §4 C19"),
  "C17": dict(
    text="FiltersEqual and every real Equals/Accept (nullFilter, allFilter, notFilter, andFilter, orFilter, nsNameFilter, selectorFilter, fnFilter, nodeFilter, involvedFilter, serviceForFilter, the seven PodsFilter, ServicesFilter) are executed symbolically on two independently built filters with solver-chosen structure and symbolic arguments plus a symbolic object; z3 shows that whenever equality is reported both filters agree on the object, that nil / non-comparable cases follow the contract, and that filters built twice from the same arguments (workload filters also from the reversed argument order) compare equal, for every value within the bound.",
-   note="Bounds: generic terms to depth 2 over {Null, All, arbitrary leaf, NSName, Labels, FN, Not, And, Or} with arity <=2; NSName <=2 (3) ids per side; Labels/LabelSelector/Selector pairs with <=2 pairs and <=1 expression; typed pairs one workload per side (same-argument and reversed-order checks with <=2 workloads). reflect.DeepEqual is modelled structurally (documented rules); label keys are assumed non-empty; selectors with two requirements on the same key are outside the claim.",
+   note="Bounds: generic terms to depth 2 over {Null, All, arbitrary leaf, NSName, Labels, FN, Not, And, Or} with arity <=2; NSName <=2 (3) ids per side; Labels/LabelSelector/Selector pairs with <=2 pairs and <=1 expression; typed pairs one workload per side (same-argument and reversed-order checks with <=2 workloads). reflect.DeepEqual is modelled structurally (documented rules); label keys are assumed non-empty; a targeted entry compares composites that differ only by nesting (nested vs flattened, inner kind swapped, nesting order swapped) because generic depth-3 terms do not finish; selectors with two requirements on the same key are outside the claim.",
    ref="DESIGN.md §4 C17"),
  "C06": dict(
    text="The real filterSubscription.run with its real private cache actor runs below a fake parent subscription whose cache is a second real cache actor mutated by the environment; the environment performs K actions (parent ready, arbitrary parent change with symbolic type/key/version, Refilter to one of four arbitrary filters incl. a non-comparable one) in every order, and every interleaving of the goroutines is explored (sleep-set partial-order reduction). At every quiescent point z3 shows the cache equals the parent content filtered by the most recently set filter at the parent's versions, and that the subscription's own events replay to its own cache.",
@@ -33,7 +33,7 @@ CHECKS = {
    ref="DESIGN.md §4 C06"),
  "C07": dict(
    text="Same real code as C06 in the property's situation: a ready filtered subscription over <=2 parent objects with nothing in flight, then Refilter(f2) and optionally Refilter(f3) with filters from {three arbitrary filters, accept-all, accept-none}; z3 shows the events observed are exactly one Delete per cached object the new filter rejects and one Create per parent object newly accepted, nothing for an equal filter, and that returning to the first filter restores the first view.",
-   note="Bounds: parent content <=2 (thorough 3) objects with symbolic keys/versions; 1-2 refilter steps over 8 filters (three arbitrary ones, accept-all, accept-none, and three nested NSName filters over the parent's own keys; all ordered pairs, and triples ending anywhere); immediate subscriptions and for-filter (deferred) subscriptions that became ready through their first Refilter (before or after the parent was ready). Arbitrary filters are uninterpreted functions, which subsumes equal/overlapping/disjoint families.",
+   note="Bounds: parent content <=2 (thorough 3) objects with symbolic keys/versions; 1-2 refilter steps over 8 filters (three arbitrary ones, accept-all, accept-none, and three nested NSName filters over the parent's own keys; all ordered pairs, and triples ending anywhere); immediate subscriptions and for-filter (deferred) subscriptions that became ready through their first Refilter (before or after the parent was ready); optionally an away-and-straight-back pair of Refilter calls without waiting in between. Arbitrary filters are uninterpreted functions, which subsumes equal/overlapping/disjoint families.",
    ref="DESIGN.md §4 C07"),
  "C08": dict(
    text="Real filterSubscription.run (immediate and deferred) driven by the property's action alphabet {parent ready, Refilter(equal), Refilter(new), parent change} in every order up to K, with two concurrent observers: one waits for Ready() and immediately reads the cache, one waits for the first event. z3 shows Ready closes iff the parent is ready (and, deferred, a filter was supplied), the read made on observing Ready is the filtered parent content of some moment, and the first event is delivered only after Ready closed.",
@@ -41,7 +41,7 @@ CHECKS = {
    ref="DESIGN.md §4 C08"),
  "C16": dict(
    text="Real NewMonitor/monitor.run against a fake subscription; the environment performs K actions from {subscription ready, event of symbolic type and object, close subscription, close monitor} in every order while handler callbacks may be arbitrarily slow (a scheduling point inside every callback); all interleavings explored. z3/the engine show: OnInitialize at most once, first, with the cache content; exactly one callback per received event matching type and object in order; callbacks never overlap; none after Done; none if never ready.",
-   note="Bounds: quick K<=4, thorough K<=5 actions; events <=K. Typed monitors are covered under C20.",
+   note="Bounds: quick K<=4, thorough K<=5 actions; events <=K; the List at readiness either succeeds or fails with ErrNotRunning (then: no callback, monitor done with an error). Typed monitors are covered under C20.",
    ref="DESIGN.md §4 C16"),
  "C03": dict(
    text="The real controller.run and the real cache actor run between a fake lister, a recording subscription and a fake watcher whose event channel the environment feeds with ARBITRARY symbolic events (any type, key, version), which over-approximates every watch fault (never connects, drops, duplicates, replays, reordering). The environment performs K actions {list completes, watch event, list completes while a watch event is in flight}; all interleavings explored. From a snapshot taken inside watcher.reset (i.e. right after the sync) z3 shows: every cached key was listed, every listed accepted object is present and never older than listed, the exact reference result when nothing was in flight, one reset per list with the list's version, nothing published for the initial list, and that replaying the published events from the content at readiness always equals the cache.",
@@ -65,7 +65,7 @@ CHECKS = {
    ref="DESIGN.md §4 C05"),
  "C10": dict(
    text="Real publisher / subscription / filtered clone / filtered subscription / monitor with one consumer that never reads and one healthy consumer that keeps its backlog below the buffer, for streams of 0..2B+1 events with EventBufsiz scaled to B; all interleavings explored. The engine shows no stuck state (the stream is always accepted), the healthy consumer receives all events in order, the parent cache holds all objects, and what the stalled consumer later drains is an in-order subsequence of at least min(m,B) events.",
-   note="Bounds: B=2, streams of creates and deletes of length <=4 (thorough 5), four placements of the stalled consumer (sibling subscriber, subscriber of a clone, subscriber of a filtered clone, filtered subscription next to a monitor). The real constant 100 is outside the claim (the code is parametric in it; scaling is recorded in the evidence).",
+   note="Bounds: B=2, streams of creates and deletes of length <=4 (thorough 5), plus, for the stalled filtered subscription, a Refilter that produces events while its buffer is full followed by another event and another Refilter; four placements of the stalled consumer (sibling subscriber, subscriber of a clone, subscriber of a filtered clone, filtered subscription next to a monitor). The real constant 100 is outside the claim (the code is parametric in it; scaling is recorded in the evidence).",
    ref="DESIGN.md §4 C10"),
  "C11": dict(
    text="Trees of real publisher / subscription / filtered subscription / clone / filtered clone / monitor nodes below a fake root, shape chosen by the solver; one node (or the root's parent) is closed before any event, mid-stream or at a quiescent point; all interleavings explored. At quiescence every node of the closed subtree is Done with its Events() closed, every other node is not Done and receives a subsequent event.",
@@ -77,11 +77,11 @@ CHECKS = {
    ref="DESIGN.md §4 C12"),
  "C15": dict(
    text="The real cache actor with a writer moving through distinguishable complete states via sync/refilter and two concurrent readers (List, Get), all interleavings explored: every List equals exactly one of the states (never half-applied), is not older than a write the reader already knew complete, successive reads never go backwards, mutating the returned slice affects nobody. The engine's vector-clock check reports any access to cache state that is not ordered by channel operations (data race) as a violation.",
-   note="Bounds: quick 2 writes, 2 readers x 2 reads; thorough 3 writes. Race detection covers the explored schedules and the Go memory model restricted to channel/goroutine-start/close ordering; go test -race is a different technique and not used.",
+   note="Bounds: quick 2 writes, 2 readers x 2 reads; thorough 3 writes. A second entry reads the cache of a filtered subscription concurrently with a Refilter (arbitrary old and new filter, <=2 parent objects) and asserts the read is the complete old or the complete new view. Race detection covers the explored schedules and the Go memory model restricted to channel/goroutine-start/close ordering; go test -race is a different technique and not used.",
    ref="DESIGN.md §4 C15"),
  "C09": dict(
    text="Wiring link of the join property, on real code: each of the 8 generated XYsWith joins (through its default wrapper) and IngressPods runs with the real typed monitors and kcache.monitor between fake untyped controllers (typed objects are the real typed wrappers). The environment makes the source ready and performs K source changes (appear / change / disappear, symbolic namespaces, names, selectors); at every quiescent point z3 shows the filter most recently handed to the destination's for-filter clone equals (FiltersEqual, and agrees on a symbolic pod with) the join's selection rule applied to the current source content, that nothing is refiltered before the source is ready, and that closing the result closes the clone and the monitor's subscription, leaves source and destination running, and leaves no library goroutine behind; for IngressPods also that the intermediate join is closed.",
-   note="Compositional claim: join cache = destination objects selected by current source objects follows from this link + C19 (selection rules) + C06/C08 (for-filter clone content and readiness) + C16 (monitor ordering); the end-to-end system of two controllers is not explored as one state space. Bounds: <=1 initial source object, K<=2 (thorough 3) changes, selectors with one symbolic label; for ServicePods additionally a concrete-label variant checked against an independent statement of the selection rule (not the library's PodsFilter), and an end-to-end entry whose destination is REAL (publisher, for-filter clone with its filterSubscription and cache actor, typed wrappers): for every order of <=3 (4) actions {source ready, destination ready, pod arrives, source selection changes} the join is ready iff both sides are and its cache holds exactly the pods selected by the current source objects. Source namespaces are assumed non-empty.",
+   note="Compositional claim: join cache = destination objects selected by current source objects follows from this link + C19 (selection rules) + C06/C08 (for-filter clone content and readiness) + C16 (monitor ordering); the end-to-end system of two controllers is not explored as one state space. Bounds: <=1 initial source object, K<=2 (thorough 3) changes (end-to-end entry: <=4 actions), selectors with one symbolic label; for ServicePods additionally a concrete-label variant checked against an independent statement of the selection rule (not the library's PodsFilter), and an end-to-end entry whose destination is REAL (publisher, for-filter clone with its filterSubscription and cache actor, typed wrappers): for every order of <=3 (4) actions {source ready, destination ready, pod arrives, source selection changes} the join is ready iff both sides are and its cache holds exactly the pods selected by the current source objects. Source namespaces are assumed non-empty.",
    ref="DESIGN.md §4 C09"),
  "C20": dict(
    text="Decided semantically, with the identical harness text generated for each of the 12 typed packages: adaptList/typed cache List/Get/wrapEvent on symbolic mixed lists of own-typed and foreign-typed objects equal the untyped result restricted to the type; the real typed subscription.run and typed NewMonitor (over the real kcache.monitor) forward exactly the own-typed events in order and skip foreign ones; Ready/Done/Close/Refilter delegate to the parent; each typed NewClient asks client.ForResource for the API group accessor, resource name and (symbolic) namespace of its own type, the empty namespace passed through. The 8 generated joins satisfy one common wiring specification (C09 harness).",
